@@ -344,8 +344,10 @@ class TriggerHandler:
         if self._config.NO_TRACE:
             # we never installed our hooks, so there is nothing of ours to remove
             return
-        if getattr(self.__start_thread, 'mine', False):
+        if getattr(self.__start_thread, 'mine', False) and not self._callbacks.is_set:
             sys.settrace(self.__old_sys_trace)
         # else: the function of the calling thread is not ours to replace; the starting thread removes us itself, at
-        # its next trace event (see __leave_thread)
+        # its next trace event (see __leave_thread). So does the calling thread when it is the starting thread but
+        # has work pending (shutdown called from inside a function with a span or a deferred snapshot): without our
+        # function the event that completes the work would never reach us
         threading.settrace(self.__old_thread_trace)
